@@ -19,6 +19,7 @@ RULE = ("generated parameter dependent expressions (primitives, nested + - &, tr
         "rows; every non-empty subset of the free variables is fixed at the values of a random row (tensors of shape (1,dim)); "
         "non-trivial = at least 30 membership rows / samples of an evaluated domain were judged; distinct = (expression "
         "shape, set of free variables, fixed subset, k class)")
+RULE += '; forced Boolean roots whose operands depend on different variable sets; rotation angles depending on two variables (one optionally with a python default); the declared variable set of every part of the expression tree is compared with its own sub-expression (original, evaluated, original after the evaluations)'
 REQUIRED_REACH = ["Circle.__call__", "Sphere.__call__", "Parallelogram.__call__", "Triangle.__call__", "Interval.__call__",
                   "UnionDomain.__call__", "CutDomain.__call__", "IntersectionDomain.__call__", "ProductDomain.__call__",
                   "Translate.__call__", "Rotate.__call__", "BoundaryDomain.__call__", "UserFunction.partially_evaluate",
